@@ -90,6 +90,21 @@ def _direct_inserts(sp, hb, body):
                 out.add("?")
             continue
         if n.get("k") == "MethodCall" and n["method"] == "extend":
+            a0 = strip_transparent(n["args"][0]) if n.get("args") else {}
+            if "IndexSet" in (strip_transparent(n["recv"]).get("ty") or "") and a0.get("k") == "MethodCall" and a0.get("method") == "map" and a0.get("args") \
+                    and strip_transparent(a0["args"][0]).get("k") == "Closure":
+                # `types.extend(xs.iter().map(|x| Some(atom)))`: one insert per element, the closure's value
+                from .c02 import _leaves
+                for leaf in _leaves(strip_transparent(a0["args"][0])["body"]):
+                    lf = strip_transparent(leaf)
+                    if lf.get("k") == "Path" and lf["res"].get("variant") == "None":
+                        out.add("null")
+                    elif lf.get("k") == "Ctor" and lf.get("variant") == "Some" and lf["args"]:
+                        for kind, d in sp.prov(hb, lf["args"][0]):
+                            out.add(d if kind == "const" else ("<name>" if kind == "input_ident" else "?%s" % kind))
+                    else:
+                        out.add("?")
+                continue
             recursion = True
         from ..facts import children
         stack.extend(children(n))
